@@ -9,6 +9,7 @@ def g_list(xs): return "[" + "; ".join(xs) + "]"
 def g_opt(x): return "None" if x is None else "(Some %s)" % x
 
 def main():
+    sys.argv = [a for a in sys.argv if a != "-s"] + (["-s"] if "-s" in sys.argv else [])
     n = int(sys.argv[1]) if len(sys.argv) > 1 else 5
     seed = int(sys.argv[2]) if len(sys.argv) > 2 else 1
     fmts = sys.argv[3].split(",") if len(sys.argv) > 3 else list(srcgen.FORMATS)
@@ -40,50 +41,46 @@ def main():
             docs.append(m[0] if m else dg.valid())
             f = dg.faulty()
             docs.append(f[0] if f else dg.valid())
+            if "-s" in sys.argv:
+                docs = [srcgen.stress_doc(rng, d) for d in docs]
             jobs.append({"id": "%s_%d" % (sid, r), "sid": sid, "type": "Root", "docs": [srcgen.dumps(d) for d in docs],
-                         "pydocs": docs, "ops": ["std", "equals"]})
+                         "pydocs": docs, "fault": (f[1], f[2]) if f else None})
     res = b.run(jobs)
     print("run %.1fs" % (time.time() - t0))
     cases = []
     for j, r in zip(jobs, res):
         if r is None:
             print("driver died on", j["id"]); continue
-        nd = len(j["docs"])
-        obs = [g_opt(srcgen.doc_to_gallina(x["enc"])) if x["std"] == "ok" else "None" for x in r["res"]]
-        mat = g_list(g_list({"t": "(Some true)", "f": "(Some false)"}.get(c, "None") for c in row[:nd]) for row in r["eq"][:nd])
-        term = "(ctx_%s, %s, %s, %s, %s, %s)" % (j["sid"], srcgen.g_str(j["sid"]), srcgen.g_str("Root"),
-                g_list(srcgen.doc_to_gallina(d) for d in j["pydocs"]), g_list(obs), mat)
-        cases.append((j["sid"], term, j, r))
-    defs = """
-Definition case := (schemas * string * string * list json * list (option json) * list (list (option bool)))%type.
-Definition c_unm (c : case) : bool := let '(ctx, p, n, docs, obs, mat) := c in
-  negb (ctx_supported ctx) || existsb (fun d => is_unmodelled (decode_object ctx p n d)) docs.
-Definition c_std (c : case) : bool := let '(ctx, p, n, docs, obs, mat) := c in
-  negb (c_unm c) && negb (forallb (fun x => x) (map (fun dj => std_agrees (std_roundtrip ctx p n (fst dj)) (snd dj)) (combine docs obs))).
-Definition c_eq (c : case) : bool := let '(ctx, p, n, docs, obs, mat) := c in
-  negb (c_unm c) && negb (matrix_eqb (model_eq_matrix ctx p n (map (decode_object ctx p n) docs)) mat).
-"""
-    # monkeypatch preamble additions through imports string trick
+        cases.append((j["sid"], gencode.gcase_term(j["sid"], j["sid"], "Root", j["pydocs"], r), j, r))
+    import collections
+    st = collections.Counter()
+    for c in cases:
+        for x in c[3]["res"]:
+            st["std_" + x["std"]] += 1; st["strict_" + x["strict"]] += 1; st["vals_" + (x["vals"] or "none")] += 1
+            if x["val"]: st["val_paths"] += len(x["val"])
+            if x["std"] == "ok" and x["strict"] == "ok" and not srcgen.json_same(x["enc"], x["senc"]): st["enc!=senc"] += 1
+        for row in c[3]["eq"]:
+            for e in row: st["eq_" + e] += 1
+    print(dict(st))
     imports = "Model.GoSem"
-    old = gencode.PREAMBLE
-    gencode.PREAMBLE = old + defs.replace("%", "%%")
-    ev = gencode.eval_cases(ctx, "cases", imports, b, [(c[0], c[1]) for c in cases], "case",
-                            [("UNM", "c_unm"), ("STD", "c_std"), ("EQ", "c_eq")], shard=40)
+    ev = gencode.eval_cases(ctx, "cases", imports, b, [(c[0], c[1]) for c in cases], "gcase", gencode.GCASE_DEFS, shard=40)
     print("coq %.1fs" % (time.time() - t0), {k: len(v) for k, v in ev.items()}, "of", len(cases))
     shown = 0
-    for kind in ("STD", "EQ", "UNM"):
+    for kind in ("STD", "STRICT", "VAL", "EQ"):
         for i in ev[kind][:4]:
             sid, term, j, r = cases[i]
             print("=====", kind, j["id"], b.schemas[sid][1])
             for d, x in zip(j["docs"], r["res"]):
-                print("  doc", d[:400]); print("   ->", x["std"], srcgen.dumps(x["enc"])[:400] if x["enc"] is not None else None)
-            print("  eq", [row[:len(j["docs"])] for row in r["eq"][:len(j["docs"])]])
-            body = "Definition c : case := %s.\n" % term
-            body += "Eval vm_compute in (let '(ctx, p, n, docs, obs, mat) := c in (ctx_supported ctx, map (decode_object ctx p n) docs, map (std_roundtrip ctx p n) docs, model_eq_matrix ctx p n (map (decode_object ctx p n) docs))).\n"
+                print("  doc", d[:400]); print("   ->", x["std"], srcgen.dumps(x["enc"])[:300] if x["enc"] is not None else None, "| val", x["vals"], x["val"], "| strict", x["strict"], x["spaths"], srcgen.dumps(x["senc"])[:300] if x["senc"] is not None else None)
+            print("  eq", r["eq"], "fault", j["fault"])
+            body = "Definition c : gcase := %s.\n" % term
+            what = {"STD": "map (std_roundtrip ctx p n) docs", "STRICT": "(map (strict_object ctx p n) docs, map (strict_roundtrip ctx p n) docs)",
+                    "VAL": "map (model_validate ctx p n) docs",
+                    "EQ": "model_eq_matrix ctx p n (map (decode_object ctx p n) docs ++ map (strict_object ctx p n) docs)"}[kind]
+            body += "Eval vm_compute in (let '(ctx, p, n, docs, obs, mat) := c in (%s)).\n" % what
             rc, out = gencode.coq_print(ctx, "dbg_%d" % i, imports, b, [sid], body)
             print(out[-2500:])
             shown += 1
-    gencode.PREAMBLE = old
     print("scratch", ctx.scratch)
 
 main()
